@@ -5,6 +5,7 @@ import (
 	"encoding/hex"
 	"encoding/json"
 	"encoding/xml"
+	"regexp"
 	"sort"
 	"strconv"
 	"strings"
@@ -204,12 +205,23 @@ func safeString(r *gen.Rand, n int) string {
 			// printable escapes of dangerous bytes: harmless unless a helper decodes them
 			if r.Chance(1, 3) {
 				sb.WriteString(gen.Pick(r, []string{"%0d%0a", "%0A", "%0D", "%00", "%0e", "%7F", "%25", "\\r\\n", "&#13;&#10;", "\\u000a"}))
+			} else if r.Bool() {
+				// CR LF percent-encoded one to three times, each byte at its own depth, with a
+				// header line behind it: harmless unless some layer decodes once too often
+				sb.WriteString(pctNest(r, "0d") + pctNest(r, "0a") + gen.Pick(r, []string{"X-Evil:%201", "Set-Cookie:x=y", "X-Evil: 1", ""}))
 			}
 		default:
 			sb.WriteByte(injSafe[r.Intn(len(injSafe))])
 		}
 	}
 	return sb.String()
+}
+
+var pctCRLF = regexp.MustCompile(`(?i)%(25)*0[da]`)
+
+// pctNest percent-encodes the byte with hex digits hx at depth 1..3 ("%0d", "%250d", "%25250d").
+func pctNest(r *gen.Rand, hx string) string {
+	return "%" + strings.Repeat("25", r.Intn(3)) + hx
 }
 
 func otherCTL(r *gen.Rand) byte {
@@ -309,7 +321,10 @@ func runInject(e *ev.Env) {
 		{"cookie-value-crlf", "Cookie.Value", "v\r\nX-Evil: 1", "", 0},
 		{"cookie-name-crlf", "Cookie.Name", "n\r\nX-Evil: 1", "", 0},
 		{"cookie-path-crlf", "Cookie.Path", "/\r\nX-Evil: 1", "", 0},
-		{"cookie-path-percent-encoded-crlf", "Cookie.Path", "/x%0d%0aX-Evil:%201", "", 0}, // printable input, decoded by fasthttp's path normalisation
+		{"cookie-path-percent-encoded-crlf", "Cookie.Path", "/x%0d%0aX-Evil:%201", "", 0},                // printable input, decoded by fasthttp's path normalisation
+		{"cookie-path-twice-percent-encoded-crlf", "Cookie.Path", "/%0d%250d%250aSet-Cookie:x=y", "", 0}, // decoded again after the scrubbing
+		{"cookie-path-double-encoded-only", "Cookie.Path", "/x%250d%250aX-Evil:%201", "", 0},
+		{"location-percent-encoded-crlf-stays-encoded", "Location", "/x%0d%0aX-Evil:%201", "", 0},
 		{"cookie-domain-crlf", "Cookie.Domain", "d\r\nX-Evil: 1", "", 0},
 		{"clearcookie-crlf", "ClearCookie", "k\r\nX-Evil: 1", "k2", 0},
 		{"set-nul", "Set", "a\x00b", "", 0},
@@ -428,6 +443,11 @@ func injectCase(e *ev.Env, c *ev.Case, h *helper, a injArgs, class string) {
 		app = buildInjectApp()
 	}
 	w := drive.NewWire(app)
+	if pctCRLF.MatchString(a.V) || pctCRLF.MatchString(a.W) {
+		// CR or LF percent-encoded (at any depth) in the value: if anything goes wrong, some
+		// layer decoded it - one class whatever other bytes the value has
+		class = "pct-encoded-CRLF"
+	}
 	sig := "inject|" + h.name + "|" + class
 	ben := benignArgs(h, a)
 	breq := injRequest(h, ben)
